@@ -139,7 +139,7 @@ class Check:
         d = os.path.join(VERIF, 'replays', self.pid)
         os.makedirs(d, exist_ok=True)
         path = os.path.join(d, re.sub(r'[^A-Za-z0-9_]', '_', q.name) + '.json')
-        json.dump({'property': self.pid, 'query': q.name, 'harness': [os.path.relpath(s, VERIF) for s in q.srcs], 'defines': q.defines, 'stl': q.stl,
+        json.dump({'property': self.pid, 'query': q.name, 'harness': [os.path.relpath(s, VERIF) for s in q.srcs], 'defines': q.defines + q.cbmc_defines, 'stl': q.stl, 'native_extra': [r for r in ('rt/cube.c',) if os.path.basename(r) in q.rt],
                    'failed_assertion': desc, 'nondet': values}, open(path, 'w'), indent=1)
         return path
 
@@ -150,6 +150,15 @@ class Check:
         repo = repo or core.REPO
         exe = self.ws.path('replay_%s' % os.path.basename(path).replace('.json', ''))
         srcs = [os.path.join(VERIF, s) for s in rp['harness']] + [os.path.join(VERIF, 'rt', 'rt_native.cpp')] + list(extra_srcs)
+        cfiles = [os.path.join(VERIF, s) for s in rp.get('native_extra', [])]
+        objs = []
+        for cf in cfiles:
+            o = self.ws.path(os.path.basename(cf) + '.o')
+            r = subprocess.run(['gcc', '-c', cf, '-o', o] + ['-D%s' % d for d in rp['defines']], capture_output=True, text=True)
+            if r.returncode != 0:
+                raise BrokenCheck('native replay build failed:\n' + r.stderr[-2000:])
+            objs.append(o)
+        srcs = srcs + objs
         cmd = ['g++', '-std=c++20', '-g', '-O0', '-fno-omit-frame-pointer'] + (['-fsanitize=address,undefined', '-fno-sanitize-recover=undefined'] if san else []) + \
               ['-I', os.path.join(repo, 'include'), '-I', os.path.join(VERIF, 'rt'), '-I', os.path.join(VERIF, 'harness'), '-DVF_NATIVE=1'] + \
               ['-D%s' % d for d in rp['defines']] + list(extra_flags) + srcs + ['-o', exe, '-lpthread']
